@@ -49,3 +49,19 @@ spec fn header_wf(h: Header) -> bool {
     &&& h.type_count <= u32::MAX
     &&& h.char_count <= u32::MAX
 }
+
+// RFC 8536 section 3.1, as far as the header alone can be judged: magic, version byte, and the consistency of the six counts
+spec fn header_ok(b: Seq<u8>) -> bool {
+    &&& b.len() >= 44
+    &&& b[0] == 0x54 && b[1] == 0x5a && b[2] == 0x69 && b[3] == 0x66
+    &&& (b[4] == 0x00 || b[4] == 0x32 || b[4] == 0x33)
+    &&& be32(b.subrange(36, 40)) != 0
+    &&& be32(b.subrange(40, 44)) != 0
+    &&& (be32(b.subrange(20, 24)) == 0 || be32(b.subrange(20, 24)) == be32(b.subrange(36, 40)))
+    &&& (be32(b.subrange(24, 28)) == 0 || be32(b.subrange(24, 28)) == be32(b.subrange(36, 40)))
+}
+
+// total size of the data block described by a header for a given time size
+spec fn data_block_len(h: Header, ts: int) -> int {
+    h.transition_count * ts + h.transition_count + h.type_count * 6 + h.char_count + h.leap_count * (ts + 4) + h.std_wall_count + h.ut_local_count
+}
